@@ -1,3 +1,4 @@
+import GoRedisModel.Proofs.Translated
 import GoRedisModel.Proofs.Loop
 import GoRedisModel.Proofs.SourceFacts
 import GoRedisModel.Proofs.Sane
@@ -96,5 +97,17 @@ theorem C07_source_recover_barrier :
 /-- no lock of the framework is taken twice by one goroutine in the current source (regenerated): no request can
 leave a mutex held forever and with it freeze the other clients -/
 theorem C07_source_no_reentrant_locking : factHolds "noReentrantLocking" = true := source_no_reentrant_locking
+
+/-- **No slice or index expression of the translated source can panic** (regenerated on every run): the GETRANGE window
+of `redis/sugar_commander.go` and the LIMIT / LINDEX code of the example store, translated statement for statement with
+Go's panicking slice semantics, end in a value for every stored value and all 64-bit arguments – "out-of-range and
+inverted indices" cannot take the request down -/
+theorem C07_source_windows_never_panic (v : Bytes) (s e : Int) (hl : (v.length : Int) ≤ 9223372036854775807)
+    (hs : inInt64 s = true) (he : inInt64 e = true) (l : List (Int × Bytes)) (els : List Bytes)
+    (hel : (els.length : Int) ≤ 9223372036854775807) :
+    Translated.getrangeWindow v s e ≠ .panic ∧ Translated.limitZSetMembers l s e ≠ .panic ∧
+    Translated.listIndex els s ≠ .panic := by
+  rw [Translated.getrange_eq v s e hl hs he, Translated.limit_eq, Translated.listIndex_eq els s hel hs]
+  exact ⟨by simp, by simp, by simp⟩
 
 end GoRedis
